@@ -140,13 +140,22 @@ def fn_sig(b):
 specs.register_kind("fn", lambda b: fn_sig(b)[0], lambda b: fn_sig(b)[1])
 
 
-def term_function(name, n_out):
+def term_label(b):
+    """ Name used in the formal terms of a box: two boxes may share their
+    name and arity (the library deems them equal) and still compute different
+    functions, e.g. closures made by one factory. """
+    return str(b["name"]) + ("~" * b.get("v", 0))
+
+
+def term_function(name, n_out, label=None):
     """ O10: box `name` with k outputs returns "name.j(x1,...)" strings: a
     bare value for one output, () for none, a tuple otherwise. Boxes whose
     name ends in "t" are written in the library's own `lambda *xs: tuple`
     style (as its COPY and DISCARD) and return a 1-tuple for one output. """
+    label = label or name
+
     def function(*xs):
-        terms = tuple("{}.{}({})".format(name, j, ",".join(map(str, xs)))
+        terms = tuple("{}.{}({})".format(label, j, ",".join(map(str, xs)))
                       for j in range(n_out))
         return terms[0] if n_out == 1 and not name.endswith("t") else terms
     function.__name__ = str(name)
@@ -164,11 +173,11 @@ def _cart_box(b):
               "DISCARD": cartesian.DISCARD}
     if b["name"] in consts:
         return consts[b["name"]]
-    key = (b["name"], tuple(b["n"]))
+    key = (b["name"], tuple(b["n"]), b.get("v", 0))
     if key not in _CACHE:
         _CACHE[key] = cartesian.Box(
             b["name"], b["n"][0], b["n"][1],
-            term_function(b["name"], b["n"][1]))
+            term_function(b["name"], b["n"][1], term_label(b)))
     return _CACHE[key]
 
 
@@ -229,8 +238,11 @@ def cart_layer(scan, max_width):
         off = draw(st.integers(0, len(scan) - n_in))
         room = max_width - len(scan) + n_in
         n_out = draw(st.integers(0, max(0, min(3, room))))
-        return {"k": "fn", "name": draw(st.sampled_from(
-            ["f", "g", "h", "ft", "gt"])), "n": [n_in, n_out]}, off
+        b = {"k": "fn", "name": draw(st.sampled_from(
+            ["f", "g", "h", "ft", "gt"])), "n": [n_in, n_out]}
+        if draw(st.integers(0, 3)) == 0:
+            b["v"] = 1   # same name and arity, another function
+        return b, off
     return strat()
 
 
